@@ -62,6 +62,18 @@ fn value(m: &Model) -> String {
     format!("{:?} {:?} {}", v, f, bits)
 }
 
+/// Same value up to floating-point rounding, as far as it can be told from the printed values: the
+/// two values have the same type and the same text once the digits are removed ("1.80.1" and
+/// "1.79999999999999980.1", 0.6 and 0.6000000000000001). The decisive condition is checked by the
+/// caller: the new value is EXACTLY the value of the re-associated tree.
+fn approx_same(a: &str, b: &str) -> bool {
+    let skel = |v: &str| -> String {
+        let v = match v.rfind(' ') { Some(i) => &v[..i], None => v }; // drop the bit pattern
+        v.chars().filter(|c| !c.is_ascii_digit()).collect()
+    };
+    skel(a) == skel(b)
+}
+
 fn eval_text(m: &mut Model, text: &str) -> String {
     if m.set_user_input(0, CTX_ROW, CTX_COL, text.to_string()).is_err() { return "INPUT-REJECTED".into(); }
     m.evaluate();
@@ -105,9 +117,26 @@ fn one(base: &[u8], e: &Node, or: &mut Oracle, fns: &Fns, st: &mut Stats, k: u64
     match r {
         Err(_) => or.fail("e2e_panic", json!({"formula": text}), format!("panic while evaluating ={text}")),
         Ok((v0, shown, v_reload, v_retype, shown_loc, _v_loc, v_loc_en, loc, lang)) => {
+            let mut pairs = vec![];
+            bad_pairs(e, false, &mut pairs);
+            let has_assoc = !pairs.is_empty();
+            // what the re-associated tree evaluates to when typed as such (tightness of the class below)
+            let v_reassoc = if has_assoc {
+                match Model::from_bytes(base, "en") { Ok(mut m3) => eval_text(&mut m3, &format!("={}", full_paren(&reassoc(e)))), Err(_) => String::new() }
+            } else { String::new() };
             let mut report = |what: &str, form: Form, got: &str, shown: &str| {
                 st.value_failures += 1;
-                for class in crate::classify_pub(e, form) {
+                // floating-point addition is associative only up to rounding: a tree with one of the three
+                // pairs the printer leaves bare may change in the last bits — accepted as its own class only if
+                // the new value is exactly the value of the re-associated tree and differs from the old one by
+                // rounding only
+                if has_assoc && got == v_reassoc && approx_same(got, &v0) {
+                    or.fail("associative_float_rounding", json!({"typed": format!("={text}"), "displayed": shown, "value_before": v0, "value_after": got, "after": what}),
+                        format!("floating-point rounding after {what}: ={text} is {v0}; displayed/stored as {shown} (re-associated) it is {got}"));
+                    return;
+                }
+                // a value change is never excused by an associative pair
+                for class in crate::classify_pub(e, form, false).into_iter().map(|c| c.replace("roundtrip_mismatch", "value_changed")) {
                     or.fail(&class, json!({"typed": format!("={text}"), "displayed": shown, "value_before": v0, "value_after": got, "after": what, "tree": dump_s(e, fns)}),
                         format!("value changed after {what}: ={text} is {v0}; it is displayed/stored as {shown} which is {got}"));
                 }
@@ -137,6 +166,11 @@ pub fn run(g: &Gen, rng: &mut Rng, or: &mut Oracle, thorough: bool, fns: &Fns, t
     let step = if thorough { 1 } else { 3 };
     for (i, e) in triples.iter().enumerate() { if i % step == 0 && evaluable(e) { k += 1; one(m, e, or, fns, &mut st, k); } }
     for e in pairs.iter() { if evaluable(e) { k += 1; one(m, e, or, fns, &mut st, k); } }
+    // floating-point addition is not associative in the last bit: deterministic witnesses
+    for e in [add(num(0.1), add(num(0.2), num(0.3))), cat(add(num(0.1), sub(num(0.7), num(0.2))), Node::StringKind(String::new())), cmp(ironcalc_base::expressions::token::OpCompare::Equal, add(num(0.1), add(num(0.2), num(0.3))), num(0.6))] {
+        k += 1;
+        one(m, &e, or, fns, &mut st, k);
+    }
     let n = if thorough { 40_000 } else { 1_500 };
     for i in 0..n {
         let e = g.random(rng, 2 + (i % 5) as u32, true);
